@@ -758,6 +758,7 @@ status_t String :: EnsureBufferSize(uint32 requestedBufLen, bool retainValue, bo
    char * newBuf = NULL;
    const bool arrayWasDynamicallyAllocated = IsArrayDynamicallyAllocated();
    const uint32 newBufLen = ((allowShrink)||(requestedBufLen <= GetMaxShortStringLength()+1)||((IsEmpty())&&(!arrayWasDynamicallyAllocated))) ? requestedBufLen : GetNextBufferSize(requestedBufLen);
+   if (newBufLen < requestedBufLen) return B_RESOURCE_LIMIT;  // GetNextBufferSize()'s uint32 arithmetic wrapped around
    if (newBufLen == 0)
    {
       ClearAndFlush();
